@@ -163,6 +163,12 @@ static int get_register_mips_rsp(
   uint8_t type = RSP_ELEMENT_WHOLE;
   int l = strlen(token_1);
 
+  if (l == 0)
+  {
+    print_error_unexp(asm_context, token_1);
+    return -2;
+  }
+
   if (token_1[l - 1] == 'q')
   {
     type = RSP_ELEMENT_QUARTER;
